@@ -87,6 +87,31 @@ def material_guard(fx):
             if errs and fs[0] not in region and fs[0] in fp.reachable(a) and a not in fp.reachable(fs[0]):
                 best = allowed if best is None else max(best, allowed)
     if best is None:
+        # `[White, Black].into_iter().any(|side| board.occupancy_for(side).count() > MAX)` followed by one `if`
+        from facts import switch_edge_conds as _sec, decision_paths as _dp
+        for a in sorted(fp.live_blocks()):
+            for (tgt, e, pol, v) in _sec(fp, a):
+                d = deep_strip(e)
+                if not (pol is True and isinstance(d, tuple) and d and d[0] == "call" and str(d[1]).endswith("::any") and len(d[2]) == 2):
+                    continue
+                arrs = [x for x in walk(d[2][0]) if isinstance(x, tuple) and x and x[0] == "agg" and x[1] == "array"]
+                clos = [x for x in walk(d[2][1]) if isinstance(x, tuple) and x and x[0] == "agg" and str(x[1]).startswith("closure:")]
+                cb = fx.bodies.get(clos[0][1][len("closure:"):]) if clos else None
+                if cb is None or len(arrs) != 1:
+                    continue
+                pl = {str(deep_strip(x)[1]).split("::")[-1] for x in arrs[0][2] if isinstance(deep_strip(x), tuple) and deep_strip(x)[0] == "agg"}
+                for conds, ret, last in _dp(cb, 8):
+                    r = deep_strip(ret) if ret is not None else None
+                    co = cmp_op(r) if isinstance(r, tuple) else None
+                    if co and co[0] in ("Gt", "Ge") and find_calls(co[1], "Bitboard::count") and find_calls(co[1], "Board::occupancy_for"):
+                        y = deep_strip(co[2])
+                        k = y[1] if isinstance(y, tuple) and y[0] == "const" else next((cv.get("int") for kk, cv in fx.consts.items() if isinstance(y, tuple) and y[0] == "constpath" and norm(kk) == y[1]), None)
+                        region = fp.reachable(tgt, removed_blocks=[a])
+                        errs = any(st["k"] == "assign" and st["lhs"]["l"] == 0 and st.get("rv", {}).get("variant") == "Err" for r2 in region for st in fp.blocks[r2]["stmts"])
+                        if isinstance(k, int) and errs and fs[0] not in region and fs[0] in fp.reachable(a):
+                            best = k if co[0] == "Gt" else k - 1
+                            players_in_fn |= pl
+    if best is None:
         return False, "no test of the number of men per side (count of occupancy_for(side)) that rejects the board before Game::from_state"
     if best > 16:
         return False, f"the reader accepts up to {best} men a side (more than 16)"
